@@ -1151,16 +1151,34 @@ def run(ctx):
                 'MC_EqHist: a state machine over live mutable objects (list, dict, dict subclass, ndarray, two views of one buffer, Series, '
                 'DataFrame) with the in-place writes x[k] = v, x.index / x.columns = .., d[k] = d.pop(k), append, pop; the answer expected '
                 'from a call is what the statement pins for the CURRENT descriptors; an identity-keyed memo of earlier answers is refuted. '
+                'SESSIONS (MC_EqHist, sess): a call has no memory - groups of four live objects that collide on whatever a memo inside eq '
+                'could be keyed on (one class, one length, one text, ==-equal across types: a value, its copy, a shorter one whose '
+                'index comparison raises inside eq, one with another cell; Series on Range / Datetime / label indexes, frames, a frame inside '
+                'a record inside a list, arrays, 1 / 1.0 / "1" / np.int64(1), list / tuple, thorough also dicts / Dict, instants, NaNs, object '
+                'Series / arrays); every ordered pair of calls eq(obj_i, obj_j) (i = j included) / in_(obj_i, [the others]), and call - '
+                'the caller drops an operand and builds another value in its place - the same call again; thorough: TLC-simulated '
+                'sessions of 4 calls with any rebuild / in-place write between them; a memo keyed by the pair of classes is refuted. '
+                'WIDE (MC_EqWide): containers of 3 / 10 (thorough 2 .. 13, 20) structurally identical members - records of one / two keys, '
+                'records holding lists / records, lists, arrays, Series, NaN-holding records, dict subclasses, scalars - in every container '
+                'kind (list, tuple, dict, Dict, object array, object Series, and a list / tuple / dict one level further down), y a copy '
+                'with the member at ONE position - every position - replaced by one that differs (cell, key, type) or by another '
+                'realisation of it; the pinned answer is that of the member pair at every width and position, in both argument orders; '
+                'the walk over the members accumulates the law; an address-keyed memo fed with recycled temporaries is refuted. '
                 'S2C: every TLC-enumerated pair of descriptors realised as Python values IN ONE WORLD (views of one buffer number share '
                 'memory between the operands), eq compared with what the statement pins; in_ on TLC-enumerated (value, sequence); every '
                 'TLC-enumerated history call - write - call (- write - call) replayed on real objects, each write read back and compared with '
-                'the descriptor TLC computed, each call compared with what is pinned at that moment. '
+                'the descriptor TLC computed, each call compared with what is pinned at that moment; every session replayed on fresh '
+                'objects BEFORE any other comparison of the run (eq and in_ calls, rebuilds read back); every wide case eq(x, y), eq(y, x) '
+                'and in_(the replaced member, the members of y). '
                 'C2S: full matrix eq(x, y) over TLC\'s universe + hand-picked corners + seeded random nestings (random insertion orders, '
                 'views into shared pool buffers, re-ordered / re-housed / other-missing-marker variants of each random value), each '
                 'with a structural copy (values holding views: a second view object on the same memory and a copy in other memory), '
                 'validated cell by cell (boolean, reflexive on copies and on other realisations, symmetric, transitive over '
                 'every third value, pinned answers) by Trace_Eq; seeded random histories of in-place writes on random values and their copies, '
-                'every call logged with the descriptors the two objects project to at that moment and judged against what is pinned for those. '
+                'every call logged with the descriptors the two objects project to at that moment and judged against what is pinned for those; '
+                'in the same way random WIDE pairs (a random member 6 .. 14 times in a random container kind, one - often late - position '
+                'holding a near variant) and random SESSIONS (a random value, its copy, the value one item shorter, a near variant: 6 calls on '
+                'random pairs). '
                 'Non-trivial = a pair of different non-scalar objects that are equal '
                 '(C2S) or a pair of different descriptors whose answer is pinned (S2C).')
     ctx.mc('MC_Eq', 'MC_Eq_quick.cfg' if ctx.quick else 'MC_Eq_thorough.cfg')
@@ -1212,6 +1230,11 @@ def run(ctx):
         'numbers are compared exactly, without tolerance (rationals in lowest terms, |numerator|, denominator < 2^31)',
         'eq speaks of the values its operands have at the moment of the call: an object written to in place is another value of the '
         'universe (writes: item / cell / label / re-inserted key / append / pop; a write through a view is seen by the other views of the buffer)',
+        'a call has no memory: sessions are replayed in ONE process (module state of pyg_base cannot be reset between histories), each on '
+        'fresh objects; what an earlier history left behind in the process can only add violations to a later one, never hide one of its own '
+        '(every history is judged call by call against what is pinned for its operands); address re-use after a rebuild is likely, not guaranteed',
+        'wide containers: the members of x are one descriptor repeated (NaN-holding members share one NaN object inside x; the members of y '
+        'hold another one); widths up to 20; the replaced member sits at one position only',
         'small scope: MC / S2C on the fixed abstract universe of spec/MC_Eq.tla; C2S on the values actually built (seeded)',
     ]
 
